@@ -3,7 +3,17 @@
  * conf.c is #included so that the static store and its two access functions can be reached and
  * emptied between runs (the library itself is otherwise unchanged; conf.c is left out of the
  * library objects).  Case line (same as driver/c10_main.ml):
- *     x <progname hex> <progver hex> <env> <op> <op> ...
+ *     x <progname> <progver> <world> <op> <op> ...
+ * Every text is a value spec: parts joined by '+', a part is hex | - | *<n> (n times 'L') | *<n>/<hexpattern>
+ * (the pattern repeated up to n bytes).  <world> is - or a comma-separated list of
+ *     <name>=<value>          an environment variable (the environment holds nothing else)
+ *     @o=<value>              what a command run by %exec "prints": the intercepted system() writes it to the file
+ *                             behind the last " >" of the command; without this entry a spawn ends the run ("X spawn")
+ *     @d<name>=<e>;<e>;...    a directory as opendir/readdir/stat show it to conf.c (the four calls are redirected to
+ *                             the harness, nothing touches the file system): <e> is <value> (a regular file),
+ *                             !<value> (a directory), ?<value> (stat fails), #<count>x<len> (count regular files with
+ *                             generated names of len characters); - for an empty directory.  Other directories do not exist.
+ * ops: e:<text> (expand), p:<k>:<v> (put_var), d:<k> (put_var k NULL), g:<k> (get_var).
  * The whole history is run THREE times from an empty store:
  *   run 1: stack, malloc'ed blocks and the slack of every input object painted 0xA5;
  *   run 2: the same with 0x5A;      the two transcripts must be identical (else PAINT-DEPENDENT);
@@ -16,10 +26,89 @@
 #include "common.h"
 #include <alloca.h>
 #include <sys/types.h>
+#include <sys/stat.h>
+#include <dirent.h>
+#include <errno.h>
+
+/* ---- the directories of the case: opendir / readdir / closedir / stat as conf.c sees them ---- */
+typedef struct { char *name; int kind; } lv_dent_t;            /* kind 0 regular file, 1 directory, 2 stat fails */
+typedef struct { char *name; lv_dent_t *ents; long n; } lv_dir_t;
+#define LV_MAXDIRS 8
+static lv_dir_t lv_dirs[LV_MAXDIRS];
+static int lv_ndirs;
+typedef struct { lv_dir_t *d; long pos; struct dirent ent; } lv_DIR;
+
+static DIR *lv_opendir(const char *name)
+{
+    int k;
+    for (k = 0; k < lv_ndirs; k++) {
+        if (!strcmp(lv_dirs[k].name, name)) {
+            lv_DIR *h = (lv_DIR *) malloc(sizeof(lv_DIR));    /* malloc and free are the counted pair */
+            memset(h, 0, sizeof(lv_DIR));
+            h->d = &lv_dirs[k];
+            return (DIR *) h;
+        }
+    }
+    errno = ENOENT;
+    return NULL;
+}
+static struct dirent *lv_readdir(DIR *dp)
+{
+    lv_DIR *h = (lv_DIR *) dp;
+    const char *nm;
+    if (h->pos == 0) nm = ".";
+    else if (h->pos == 1) nm = "..";
+    else if (h->pos - 2 < h->d->n) nm = h->d->ents[h->pos - 2].name;
+    else return NULL;
+    h->pos++;
+    memset(&h->ent, 0, sizeof(h->ent));
+    snprintf(h->ent.d_name, sizeof(h->ent.d_name), "%s", nm);
+    return &h->ent;
+}
+static int lv_closedir(DIR *dp) { free(dp); return 0; }
+static int lv_stat(const char *path, struct stat *st)
+{
+    int k;
+    long j;
+    for (k = 0; k < lv_ndirs; k++) {
+        size_t dl = strlen(lv_dirs[k].name);
+        if (strncmp(path, lv_dirs[k].name, dl) || path[dl] != '/') continue;
+        memset(st, 0, sizeof(*st));
+        if (!strcmp(path + dl + 1, ".") || !strcmp(path + dl + 1, "..")) { st->st_mode = S_IFDIR | 0755; return 0; }
+        for (j = 0; j < lv_dirs[k].n; j++) {
+            if (strcmp(path + dl + 1, lv_dirs[k].ents[j].name)) continue;
+            if (lv_dirs[k].ents[j].kind == 2) { errno = ENOENT; return -1; }
+            st->st_mode = (lv_dirs[k].ents[j].kind == 1) ? (S_IFDIR | 0755) : (S_IFREG | 0644);
+            return 0;
+        }
+    }
+    errno = ENOENT;
+    return -1;
+}
+#define opendir(n) lv_opendir(n)
+#define readdir(d) lv_readdir(d)
+#define closedir(d) lv_closedir(d)
+#define stat(p, b) lv_stat(p, b)
 #include "conf.c"
+#undef opendir
+#undef readdir
+#undef closedir
+#undef stat
 
 static int lv_spawned;
-int __wrap_system(const char *c) { (void) c; lv_spawned = 1; return -1; }
+static unsigned char *lv_exec_out;      /* world entry @o: what a command "prints"; NULL = spawning ends the run */
+static size_t lv_exec_out_len;
+int __wrap_system(const char *c)
+{
+    const char *gt = NULL, *q;
+    if (!lv_exec_out || !c) { lv_spawned = 1; return -1; }
+    for (q = c; (q = strstr(q, " >")); q += 2) gt = q;
+    if (gt) {
+        FILE *f = fopen(gt + 2, "wb");
+        if (f) { if (lv_exec_out_len) fwrite(lv_exec_out, 1, lv_exec_out_len, f); fclose(f); }
+    }
+    return 0;
+}
 FILE *__wrap_popen(const char *c, const char *m) { (void) c; (void) m; lv_spawned = 1; return NULL; }
 pid_t __wrap_fork(void) { lv_spawned = 1; return -1; }
 int __wrap_execve(const char *p, char *const a[], char *const e[]) { (void) p; (void) a; (void) e; lv_spawned = 1; return -1; }
@@ -92,6 +181,40 @@ static void lv_addhex(lv_out_t *o, const unsigned char *b, size_t n)
     for (i = 0; i < n; i++) { tmp[0] = d[b[i] >> 4]; tmp[1] = d[b[i] & 15]; lv_add(o, tmp, 2); }
 }
 
+/* value spec -> exact block of length + 1 bytes, NUL after the value (the values of a case hold no NUL) */
+static char *lv_spec(const char *v, size_t *len)
+{
+    char *r = (char *) malloc(1), *c = strdup(v), *part, *save = NULL;
+    size_t total = 0;
+    for (part = strtok_r(c, "+", &save); part; part = strtok_r(NULL, "+", &save)) {
+        if (part[0] == '*') {
+            size_t n = (size_t) strtoul(part + 1, NULL, 10), pl = 1, i;
+            const char *sl = strchr(part, '/');
+            unsigned char *pat = NULL;
+            if (sl) pat = lv_unhex(sl + 1, &pl);
+            r = (char *) realloc(r, total + n + 1);
+            for (i = 0; i < n; i++) r[total + i] = (pat && pl) ? (char) pat[i % pl] : 'L';
+            total += n;
+            free(pat);
+        } else {
+            size_t n;
+            unsigned char *b = lv_unhex(part, &n);
+            r = (char *) realloc(r, total + n + 1);
+            if (n) memcpy(r + total, b, n);
+            total += n;
+            free(b);
+        }
+    }
+    free(c);
+    {
+        char *e = (char *) malloc(total + 1);
+        if (total) memcpy(e, r, total);
+        e[total] = 0;
+        free(r);
+        if (len) *len = total;
+        return e;
+    }
+}
 static char *lv_field(const char *op, int idx)   /* idx-th ':'-separated field, decoded, exact block */
 {
     const char *p = op;
@@ -100,9 +223,64 @@ static char *lv_field(const char *op, int idx)   /* idx-th ':'-separated field, 
     while (idx-- > 0) { p = strchr(p, ':'); if (!p) return NULL; p++; }
     n = strcspn(p, ":");
     h = (char *) malloc(n + 1); memcpy(h, p, n); h[n] = 0;
-    r = lv_unhex_str(h);
+    r = lv_spec(h, NULL);
     free(h);
     return r;
+}
+
+/* world entry @d<name>=<e>;<e>;... */
+static void lv_add_dir(char *name_spec, char *listing)
+{
+    lv_dir_t *d;
+    char *e, *save = NULL;
+    long cap = 0, grp = 0;
+    if (lv_ndirs >= LV_MAXDIRS) return;
+    d = &lv_dirs[lv_ndirs++];
+    d->name = lv_spec(name_spec, NULL);
+    d->ents = NULL;
+    d->n = 0;
+    if (!strcmp(listing, "-")) return;
+    for (e = strtok_r(listing, ";", &save); e; e = strtok_r(NULL, ";", &save), grp++) {
+        if (e[0] == '#') {
+            long cnt = atol(e + 1), len = 0, i;
+            char *x = strchr(e, 'x');
+            if (x) len = atol(x + 1);
+            for (i = 0; i < cnt; i++) {
+                /* the index in base 36, right-aligned in a name of upper-case letters (as driver/c10_main.ml) */
+                char rev[32], *nm = (char *) malloc((size_t) len + 1);
+                int nd = 0, z;
+                long q = i;
+                do { rev[nd++] = "0123456789abcdefghijklmnopqrstuvwxyz"[q % 36]; q /= 36; } while (q);
+                memset(nm, 'A' + (int) (grp % 26), (size_t) len);
+                nm[len] = 0;
+                for (z = 0; z < nd && z < len; z++) nm[len - 1 - z] = rev[z];
+                if (d->n == cap) { cap = cap ? 2 * cap : 64; d->ents = (lv_dent_t *) realloc(d->ents, (size_t) cap * sizeof(lv_dent_t)); }
+                d->ents[d->n].name = nm;
+                d->ents[d->n].kind = 0;
+                d->n++;
+            }
+        } else {
+            int kind = (e[0] == '!') ? 1 : (e[0] == '?') ? 2 : 0;
+            if (d->n == cap) { cap = cap ? 2 * cap : 64; d->ents = (lv_dent_t *) realloc(d->ents, (size_t) cap * sizeof(lv_dent_t)); }
+            d->ents[d->n].name = lv_spec(e + (kind ? 1 : 0), NULL);
+            d->ents[d->n].kind = kind;
+            d->n++;
+        }
+    }
+}
+static void lv_clear_world(void)
+{
+    int k;
+    long j;
+    for (k = 0; k < lv_ndirs; k++) {
+        for (j = 0; j < lv_dirs[k].n; j++) free(lv_dirs[k].ents[j].name);
+        free(lv_dirs[k].ents);
+        free(lv_dirs[k].name);
+    }
+    lv_ndirs = 0;
+    free(lv_exec_out);
+    lv_exec_out = NULL;
+    lv_exec_out_len = 0;
 }
 
 #define LV_MAXOPS 64
@@ -187,20 +365,28 @@ static void run_case(int n, char **t)
     int i;
     if (n < 4 || strcmp(t[0], "x") || n - 4 > LV_MAXOPS) { printf("HARNESS-ERROR:bad-case"); return; }
     if (!lv_inited) { spifconf_init_subsystem(); lv_inited = 1; }
-    pn = lv_unhex_str(t[1]); pv = lv_unhex_str(t[2]);
+    pn = lv_spec(t[1], NULL); pv = lv_spec(t[2], NULL);
     libast_program_name = (spif_charptr_t) pn;
     libast_program_version = (spif_charptr_t) pv;
     clearenv();
+    lv_clear_world();
     if (strcmp(t[3], "-")) {
         char *e = strdup(t[3]), *p = e;
         while (p && *p) {
             char *nx = strchr(p, ','), *eq, *k, *v;
             if (nx) *nx++ = 0;
             eq = strchr(p, '=');
+            if (!eq) { printf("HARNESS-ERROR:world"); free(e); return; }
             *eq = 0;
-            k = lv_unhex_str(p); v = lv_unhex_str(eq + 1);
-            setenv(k, v, 1);
-            free(k); free(v);
+            if (p[0] == '@' && p[1] == 'o') {
+                lv_exec_out = (unsigned char *) lv_spec(eq + 1, &lv_exec_out_len);
+            } else if (p[0] == '@' && p[1] == 'd') {
+                lv_add_dir(p + 2, eq + 1);
+            } else {
+                k = lv_spec(p, NULL); v = lv_spec(eq + 1, NULL);
+                setenv(k, v, 1);
+                free(k); free(v);
+            }
             p = nx;
         }
         free(e);
